@@ -9,6 +9,7 @@ import (
 	"encoding/binary"
 	"fmt"
 	"io"
+	"os"
 	"reflect"
 	"strconv"
 	"strings"
@@ -664,6 +665,126 @@ func c13Memory(c *engine.Ctx, in []byte, args map[string]string) {
 	}
 }
 
+// c13Pool: token-level search for the buffer pool. Operations: shift one token of length L (peek and move over every
+// byte, Shift, ShiftLen) for every L of the set, or release the oldest token that is still held with Free(len). All
+// histories up to the depth are explored breadth-first on a long stream, de-duplicated on the structure of the private
+// state (buffer and pool slot lengths, capacities, links, flags; the lengths of the tokens held) — not on stream offsets,
+// so that equal pool shapes reached at different offsets are one state. After every operation every held token must be
+// unchanged and the data in front of the cursor right. args: size, lens (comma separated), chunk, depth
+func c13Pool(c *engine.Ctx, in []byte, args map[string]string) {
+	size, _ := strconv.Atoi(args["size"])
+	chunk, _ := strconv.Atoi(args["chunk"])
+	depth, _ := strconv.Atoi(args["depth"])
+	var lens []int
+	for _, f := range strings.Split(args["lens"], ",") {
+		n, _ := strconv.Atoi(f)
+		lens = append(lens, n)
+	}
+	data := make([]byte, 4096)
+	for i := range data {
+		data[i] = byte(1 + (i*7+i/251)%255)
+	}
+	type held struct {
+		got  []byte
+		off  int
+		size int
+	}
+	// an operation: >0 shift a token of that length, 0 free the oldest
+	type node struct{ ops []int }
+	build := func(ops []int) (z *buffer.StreamLexer, tokens []held, off int, msg string) {
+		z = buffer.NewStreamLexerSize(&chunkReader{data: data, chunk: chunk}, size)
+		for step, o := range ops {
+			if o > 0 {
+				for j := 0; j < o; j++ {
+					if ch := z.Peek(0); ch != data[off+j] {
+						return z, tokens, off, fmt.Sprintf("step %d: Peek(0) at stream offset %d = %#x want %#x", step, off+j, ch, data[off+j])
+					}
+					z.Move(1)
+				}
+				b := z.Shift()
+				if !bytes.Equal(b, data[off:off+o]) {
+					return z, tokens, off, fmt.Sprintf("step %d: Shift() = %x want %x", step, b, data[off:off+o])
+				}
+				if n := z.ShiftLen(); n != o {
+					return z, tokens, off, fmt.Sprintf("step %d: ShiftLen() = %d want %d", step, n, o)
+				}
+				tokens = append(tokens, held{b, off, o})
+				off += o
+			} else {
+				z.Free(tokens[0].size)
+				tokens = tokens[1:]
+			}
+			for _, t := range tokens {
+				if !bytes.Equal(t.got, data[t.off:t.off+t.size]) {
+					return z, tokens, off, fmt.Sprintf("step %d: the token shifted at stream offset %d, which has not been freed, changed from %x to %x", step, t.off, data[t.off:t.off+t.size], t.got)
+				}
+			}
+		}
+		return z, tokens, off, ""
+	}
+	key := func(z *buffer.StreamLexer, tokens []held) string {
+		b := make([]byte, 0, 96)
+		put := func(v int) { b = binary.AppendVarint(b, int64(v)) }
+		v := reflect.ValueOf(z).Elem()
+		pool := v.FieldByName("pool")
+		blocks := pool.FieldByName("pool")
+		put(blocks.Len())
+		for i := 0; i < blocks.Len(); i++ {
+			bl := blocks.Index(i)
+			put(bl.FieldByName("buf").Len())
+			put(bl.FieldByName("buf").Cap())
+			put(int(bl.FieldByName("next").Int()))
+			if bl.FieldByName("active").Bool() {
+				put(1)
+			} else {
+				put(0)
+			}
+		}
+		for _, f := range []string{"head", "tail", "pos"} {
+			put(int(pool.FieldByName(f).Int()))
+		}
+		put(v.FieldByName("buf").Len())
+		put(v.FieldByName("buf").Cap())
+		for _, f := range []string{"start", "pos", "prevStart", "free"} {
+			put(int(v.FieldByName(f).Int()))
+		}
+		for _, t := range tokens {
+			put(t.size)
+		}
+		return string(b)
+	}
+	seen := map[string]bool{}
+	queue := []node{{nil}}
+	for qi := 0; qi < len(queue); qi++ {
+		nd := queue[qi]
+		if len(nd.ops) >= depth {
+			continue
+		}
+		_, tokens, _, _ := build(nd.ops)
+		var next []int
+		next = append(next, lens...)
+		if len(tokens) > 0 {
+			next = append(next, 0)
+		}
+		for _, o := range next {
+			ops := append(append([]int{}, nd.ops...), o)
+			z, toks, _, msg := build(ops)
+			c.Count("transitions", 1)
+			if msg != "" {
+				c.Fail("pool-ledger", fmt.Sprintf("buffer size %d, reader chunks of %d bytes, operations %v (n: shift a token of n bytes, 0: free the oldest token held): %s", size, chunk, ops, msg))
+				return
+			}
+			k := key(z, toks)
+			if !seen[k] {
+				seen[k] = true
+				c.Count("states", 1)
+				queue = append(queue, node{ops})
+			}
+		}
+	}
+	c.Count("max:pool_states_per_case", int64(len(seen)))
+}
+
 type chunkReader struct {
 	data  []byte
 	off   int
@@ -689,6 +810,7 @@ func (r *chunkReader) Read(p []byte) (int, error) {
 func c13Setup(c *engine.Ctx) {
 	c.Register(&engine.Space{Name: "sl", Run: c13Explore, NoMinimise: true})
 	c.Register(&engine.Space{Name: "mem", Run: c13Memory, NoMinimise: true})
+	c.Register(&engine.Space{Name: "pool", Run: c13Pool, NoMinimise: true})
 }
 
 // canonical token loop prefix for j tokens of length tl with Free(ShiftLen()) after each
@@ -710,50 +832,81 @@ func c13Work(c *engine.Ctx) {
 	sp := c.SpaceByName("sl")
 	datas := []string{"", "a", "ab", "abc", "abcd", "abcdef", "abcdefgh", "abcdefghij", "abc\u00e9f", "ab\u2028f", "ab\u20acde", "a\U0001F600bc", "\u20ac\U0001F600"}
 	sizes := []int{0, 1, 2, 3, 4, 5, 8, -1}
-	depth := c.Pick(7, 9)
-	devs := c.Pick(2, 3)
-	maxBlindMoves = c.Pick(1, 2)
+	// thorough: one more operation and one more deviation per history than quick; two blind moves only for the quick depth
+	// (depth 9 with two blind moves needs tens of gigabytes for the states of one case)
+	type bound struct{ depth, devs, blind int }
+	bounds := []bound{{7, 2, 1}}
+	if c.Thorough() {
+		bounds = []bound{{8, 3, 1}, {7, 2, 2}}
+	}
+	if v := os.Getenv("C13_TUNE"); v != "" { // measuring aid, never set by the registered commands
+		var b bound
+		fmt.Sscanf(v, "%d,%d,%d", &b.depth, &b.devs, &b.blind)
+		bounds = []bound{b}
+	}
 	if !c.Thorough() {
 		datas = []string{"", "a", "abc", "abcdef", "abcdefghij", "abc\u00e9f", "ab\u20acde", "a\U0001F600bc"}
 		sizes = []int{0, 1, 2, 3, 4, 8, -1}
 	}
 	k := 0
-	for _, d := range datas {
-		for _, size := range sizes {
-			fails := []int{-1}
-			for f := 0; f <= len(d); f++ {
-				if c.Thorough() || f == 0 || f == len(d)/2 || f == len(d) {
-					fails = append(fails, f)
+	for _, bd := range bounds {
+		depth, devs := bd.depth, bd.devs
+		maxBlindMoves = bd.blind
+		for _, d := range datas {
+			for _, size := range sizes {
+				fails := []int{-1}
+				for f := 0; f <= len(d); f++ {
+					if c.Thorough() || f == 0 || f == len(d)/2 || f == len(d) {
+						fails = append(fails, f)
+					}
 				}
-			}
-			for _, f := range fails {
-				type pf struct {
-					ops []slOp
-				}
-				prefixes := [][]slOp{nil}
-				for j := 1; j <= 4; j++ {
-					for _, tl := range []int{1, 2, 3} {
-						if j*tl <= len(d) && (c.Thorough() || tl == 2 || j <= 2) {
-							prefixes = append(prefixes, tokenLoopPrefix(j, tl, true))
-							if j <= 2 {
-								prefixes = append(prefixes, tokenLoopPrefix(j, tl, false))
+				for _, f := range fails {
+					type pf struct {
+						ops []slOp
+					}
+					prefixes := [][]slOp{nil}
+					for j := 1; j <= 4; j++ {
+						for _, tl := range []int{1, 2, 3} {
+							if j*tl <= len(d) && (c.Thorough() || tl == 2 || j <= 2) {
+								prefixes = append(prefixes, tokenLoopPrefix(j, tl, true))
+								if j <= 2 {
+									prefixes = append(prefixes, tokenLoopPrefix(j, tl, false))
+								}
 							}
 						}
 					}
-				}
-				for _, p := range prefixes {
-					k++
-					if !c.Mine(k) {
-						continue
+					for _, p := range prefixes {
+						k++
+						if !c.Mine(k) {
+							continue
+						}
+						args := map[string]string{"size": strconv.Itoa(size), "fail": strconv.Itoa(f), "prefix": encodeOps(p), "depth": strconv.Itoa(depth), "devs": strconv.Itoa(devs), "blind": strconv.Itoa(maxBlindMoves)}
+						c.Exec(sp, []byte(d), args)
+						c.Count("exec", 1)
+						c.Count("distinct_nontrivial", 1)
+						if k%97 == 0 {
+							c.Sample(fmt.Sprintf("data=%q size=%d fail-at=%d prefix=[%s]: all histories of ≤%d further ops × reader answers within %d deviations", d, size, f, encodeOpsPretty(p), depth, devs))
+						}
 					}
-					args := map[string]string{"size": strconv.Itoa(size), "fail": strconv.Itoa(f), "prefix": encodeOps(p), "depth": strconv.Itoa(depth), "devs": strconv.Itoa(devs), "blind": strconv.Itoa(maxBlindMoves)}
-					c.Exec(sp, []byte(d), args)
-					c.Count("exec", 1)
-					c.Count("distinct_nontrivial", 1)
-					if k%97 == 0 {
-						c.Sample(fmt.Sprintf("data=%q size=%d fail-at=%d prefix=[%s]: all histories of ≤%d further ops × reader answers within %d deviations", d, size, f, encodeOpsPretty(p), depth, devs))
-					}
 				}
+			}
+		}
+	}
+	pool := c.SpaceByName("pool")
+	for _, size := range []int{8, 16} {
+		for _, lens := range []string{"1,2", "2,4,6", "4,8,12", "3,5", "4,12", "8,12", "6,10,14", "1,7"} {
+			for _, chunk := range []int{1000, 3, 1} {
+				k++
+				if !c.Mine(k) {
+					continue
+				}
+				if size == 8 && (lens == "4,8,12" || lens == "6,10,14" || lens == "8,12" || lens == "4,12") {
+					// relative to the buffer: the same shapes at half the size
+					lens = map[string]string{"4,8,12": "2,4,6", "6,10,14": "3,5,7", "8,12": "4,6", "4,12": "2,6"}[lens]
+				}
+				c.Exec(pool, nil, map[string]string{"size": strconv.Itoa(size), "lens": lens, "chunk": strconv.Itoa(chunk), "depth": strconv.Itoa(c.Pick(11, 14))})
+				c.Count("exec", 1)
+				c.Count("distinct_nontrivial", 1)
 			}
 		}
 	}
@@ -789,8 +942,8 @@ func c13Finish(c *engine.Ctx, cov map[string]interface{}) string {
 func init() {
 	register(&engine.Check{
 		ID: "C13", Level: "model_checking",
-		Rule:        "per case (data prefix of abcdefghij or a multi-byte variant, initial size incl. 0 and the default constructor, reader failing at offset f or ending with EOF, start state = initial or after 1..4 iterations of the canonical token loop with/without Free): breadth-first search over all contract-respecting operation histories up to the depth bound × reader answers (fill / zero-length / 1 / 2 / all-but-one / error-or-EOF together with the last bytes) within the deviation bound, de-duplicated on a reflective state key; every step compared with a cursor over the complete data, the ledger of returned slices checked after every step; plus periodic streams for the memory clause. distinct_nontrivial = cases",
-		Assumptions: []string{"contract: the position never moves past the end of the data or before start, at most what was shifted is freed; moves over bytes that were not peeked at are bounded deviations (1 quick / 2 thorough per history)", "a Lexeme() slice is held to the same lifetime rule as a Shift() slice (valid until bytes up to its end are freed)"},
+		Rule:        "per case (data prefix of abcdefghij or a multi-byte variant, initial size incl. 0 and the default constructor, reader failing at offset f or ending with EOF, start state = initial or after 1..4 iterations of the canonical token loop with/without Free): breadth-first search over all contract-respecting operation histories up to the depth bound × reader answers (fill / zero-length / 1 / 2 / all-but-one / error-or-EOF together with the last bytes) within the deviation bound, de-duplicated on a reflective state key; every step compared with a cursor over the complete data, the ledger of returned slices checked after every step; plus periodic streams for the memory clause and a token-level search of the buffer pool (all histories of ≤11 (14) operations (shift a token of one of 2-3 lengths / free the oldest token held) on a 4 kB stream for 2 buffer sizes × 8 length sets × 3 reader chunk sizes, de-duplicated on the structure of the private state; every token that is still held is compared after every operation). distinct_nontrivial = cases",
+		Assumptions: []string{"contract: the position never moves past the end of the data or before start, at most what was shifted is freed; moves over bytes that were not peeked at are bounded deviations (quick: 1 per history at depth 7 with 2 reader deviations; thorough: 1 at depth 8 with 3 reader deviations and 2 at depth 7 with 2)", "a Lexeme() slice is held to the same lifetime rule as a Shift() slice (valid until bytes up to its end are freed)"},
 		Setup:       c13Setup, Work: c13Work, Finish: c13Finish,
 	})
 }
